@@ -624,10 +624,24 @@ func c25SpecValid(w *c25World, now time.Time, tok string) (nonce string, ts int6
 	return f[3], ts, true
 }
 
+// c25Accepted remembers one accepted presentation by position, so the replay oracle costs nothing
+// per request: "admitted since" is a difference of counters and "still acceptable at every later
+// clock reading" is evaluated over the recorded readings only when the same nonce passes again.
 type c25Accepted struct {
-	ts          int64 // timestamp of the accepted proof
-	admitted    int   // proofs admitted since
-	stillInTime bool  // every later clock reading so far kept this timestamp acceptable (upper edge)
+	limit      int64 // gate: ts+skew in Unix seconds; unit cache: the expiry instant in ns
+	at         int   // index into the readings recorded so far
+	admittedAt int   // value of the admitted counter right after this acceptance
+}
+
+// c25StillInTime: every reading after position at stayed within the limit (<= for the gate's
+// second-granular window, < for the cache's expiry instant).
+func c25StillInTime(readings []int64, a *c25Accepted, strict bool) bool {
+	for _, t := range readings[a.at+1:] {
+		if t > a.limit || (strict && t == a.limit) {
+			return false
+		}
+	}
+	return true
 }
 
 func c25Exec(c *Case) {
@@ -643,7 +657,11 @@ func c25Exec(c *Case) {
 		ucacheCap  int
 		ucacheTTL  int64
 		accepted   = map[string]*c25Accepted{} // gate level, by nonce
-		uAccepted  = map[string]*c25Accepted{} // unit level: ts field holds the expiry instant
+		uAccepted  = map[string]*c25Accepted{} // unit level
+		readings   []int64                     // gate: clock readings in Unix seconds, one per request
+		uReadings  []int64                     // unit cache: clock readings in ns, one per add
+		admitted   int                         // proofs admitted by the gate so far
+		uAdmitted  int
 	)
 	dump := func() string {
 		if ucache == nil {
@@ -708,7 +726,7 @@ func c25Exec(c *Case) {
 				inner = func(*http.Request) (*vgirpc.AuthContext, error) { innerCalls++; return nil, c25ErrInner }
 			}
 			gate, err := vgirpc.ProofAuthenticate(cfg, inner)
-			accepted = map[string]*c25Accepted{}
+			accepted, readings, admitted = map[string]*c25Accepted{}, nil, 0
 			if err != nil {
 				fn, w, pcfg = nil, nil, nil
 				c.Stat("cfg-rejected")
@@ -768,26 +786,19 @@ func c25Exec(c *Case) {
 					}
 				}
 			}
-			// every clock reading that no longer accepts an earlier proof's timestamp ends its guarantee
-			for _, a := range accepted {
-				if clock.Unix()-a.ts > int64(w.skew) {
-					a.stillInTime = false
-				}
-			}
+			readings = append(readings, clock.Unix())
 			if w.mode == "require" && pass && valid && !w.nocache {
-				if a := accepted[nonce]; a != nil && a.stillInTime {
+				if a := accepted[nonce]; a != nil && c25StillInTime(readings, a, false) {
 					capN := w.cap
 					if capN <= 0 {
 						capN = 100000
 					}
-					if a.admitted < capN {
-						c.Oracle("replay-accepted", fmt.Sprintf("%q: nonce %s was accepted before, its timestamp has been acceptable ever since, only %d proof(s) were admitted in between (capacity %d), yet it passed again", l, nonce, a.admitted, capN))
+					if since := admitted - a.admittedAt; since < capN {
+						c.Oracle("replay-accepted", fmt.Sprintf("%q: nonce %s was accepted before, its timestamp has been acceptable ever since, only %d proof(s) were admitted in between (capacity %d), yet it passed again", l, nonce, since, capN))
 					}
 				}
-				for _, a := range accepted {
-					a.admitted++
-				}
-				accepted[nonce] = &c25Accepted{ts: ts, stillInTime: true}
+				admitted++
+				accepted[nonce] = &c25Accepted{limit: ts + int64(w.skew), at: len(readings) - 1, admittedAt: admitted}
 			}
 			if pass {
 				c.Stat("req-pass")
@@ -813,7 +824,7 @@ func c25Exec(c *Case) {
 				continue
 			}
 			ucache, ucacheCap, ucacheTTL = vgirpc.VerifC25NewCache(time.Duration(ttl), capN), capN, ttl
-			uAccepted = map[string]*c25Accepted{}
+			uAccepted, uReadings, uAdmitted = map[string]*c25Accepted{}, nil, 0
 			c.Out(l, "ok")
 		case "add":
 			if ucache == nil {
@@ -823,19 +834,13 @@ func c25Exec(c *Case) {
 			ns, _ := strconv.ParseInt(f[1], 10, 64)
 			nonce := UnXS(f[2])
 			fresh := ucache.CheckAndAdd(nonce, time.Unix(ns/c25NS, ns%c25NS))
-			for _, a := range uAccepted {
-				if ns >= a.ts {
-					a.stillInTime = false
-				}
-			}
+			uReadings = append(uReadings, ns)
 			if fresh {
-				if a := uAccepted[nonce]; a != nil && a.stillInTime && a.admitted < ucacheCap {
-					c.Oracle("unit-replay-accepted", fmt.Sprintf("%q: nonce accepted again before its expiry %d with %d admission(s) in between (capacity %d)", l, a.ts, a.admitted, ucacheCap))
+				if a := uAccepted[nonce]; a != nil && c25StillInTime(uReadings, a, true) && uAdmitted-a.admittedAt < ucacheCap {
+					c.Oracle("unit-replay-accepted", fmt.Sprintf("%q: nonce accepted again before its expiry %d with %d admission(s) in between (capacity %d)", l, a.limit, uAdmitted-a.admittedAt, ucacheCap))
 				}
-				for _, a := range uAccepted {
-					a.admitted++
-				}
-				uAccepted[nonce] = &c25Accepted{ts: ns + ucacheTTL, stillInTime: ucacheTTL > 0}
+				uAdmitted++
+				uAccepted[nonce] = &c25Accepted{limit: ns + ucacheTTL, at: len(uReadings) - 1, admittedAt: uAdmitted}
 				c.Stat("add-fresh")
 			} else {
 				c.Stat("add-seen")
